@@ -476,6 +476,28 @@ class AsyncSrcLateClose(AsyncSrcProxy):
         return AsyncSrcProxy.__getattr__(self, name)
 
 
+class AsyncSrcDelegating:
+    """A front-end object with ``__anext__`` (and ``aclose``) of its own whose ``__aiter__`` hands out the inner
+    iterator it shares with its owner - a different object.  Unusual for an iterator, but it passes every protocol
+    check; "``__aiter__()`` gave me another object" therefore does not mean "a fresh iterator nobody else holds"."""
+
+    def __init__(self, st: SrcState):
+        self.st = st
+        self._inner = AsyncSrc(st)
+
+    def __bool__(self) -> bool:
+        return False
+
+    def __aiter__(self) -> Any:
+        return self._inner
+
+    def __anext__(self) -> Any:
+        return self._inner.__anext__()
+
+    def aclose(self) -> Any:
+        return self._inner.aclose()
+
+
 class AsyncIterable:
     """An async *iterable* that is not its own iterator (a collection, a query): asked for an iterator it hands out
     a fresh one.  The counterparts call ``iter()`` on each argument exactly once; a second request would, for a
@@ -541,7 +563,7 @@ async def _async_gen(st: SrcState):
 
 FLAVOURS_SYNC = ("list", "tuple", "getitem_seq", "sync_iter", "sync_gen", "sync_iterable")
 FLAVOURS_ASYNC = ("async_gen", "async_class", "async_class_bare", "async_class_full", "async_class_asend",
-                  "async_class_future", "async_class_proxy", "async_class_lazy", "async_iterable", "async_class_lateclose")
+                  "async_class_future", "async_class_proxy", "async_class_lazy", "async_iterable", "async_class_lateclose", "async_class_delegating")
 FLAVOURS = FLAVOURS_SYNC + FLAVOURS_ASYNC
 
 
@@ -574,6 +596,8 @@ def make_source(st: SrcState, flavour: str) -> Any:
         return AsyncSrcProxy(st)
     if flavour == "async_class_lazy":
         return AsyncSrcLazy(st)
+    if flavour == "async_class_delegating":
+        return AsyncSrcDelegating(st)
     if flavour == "async_class_lateclose":
         return AsyncSrcLateClose(st)
     if flavour == "async_iterable":
